@@ -196,6 +196,14 @@ def run_shard(args):
         from hypothesis import given, settings, HealthCheck, Phase
         from hypothesis.errors import UnsatisfiedAssumption
         check_repo_binding()
+        cov = None
+        if os.environ.get('VERIF_COVERAGE') == '1' and shard == 0:
+            try:
+                import coverage
+                cov = coverage.Coverage(data_file=None, include=[os.path.join(REPO, 'scikit_tt', '*')], config_file=False)
+                cov.start()
+            except Exception:
+                cov = None
         mod = load_module(prop_id)
         sub = [s for s in mod.SUBCHECKS if s.name == sub_name][0]
         known = load_known(prop_id)
@@ -267,6 +275,7 @@ def run_shard(args):
             out['all_hashes'] = len(allh)
             out['excluded_known'] = dict(excluded)
             out['enumerated'] = len(sub.cases[shard::nshards])
+            _collect_coverage(cov, out)
             out['wall_s'] = time.time() - t0
             return out
         test = given(sub.strategy)(wrapped)
@@ -292,12 +301,30 @@ def run_shard(args):
         out['nt_hashes'] = sorted(nt)
         out['all_hashes'] = len(allh)
         out['excluded_known'] = dict(excluded)
+        _collect_coverage(cov, out)
     except BaseException as exc:  # noqa
         if isinstance(exc, (KeyboardInterrupt, SystemExit)):
             raise
         out['harness_error'] = ''.join(traceback.format_exception(type(exc), exc, exc.__traceback__))[-6000:]
     out['wall_s'] = time.time() - t0
     return out
+
+
+def _collect_coverage(cov, out):
+    if cov is None:
+        return
+    try:
+        cov.stop()
+        data = {}
+        root = os.path.join(REPO, 'scikit_tt') + os.sep
+        for f in cov.get_data().measured_files():
+            if not f.startswith(root):
+                continue
+            _, statements, _, missing, _ = cov.analysis2(f)
+            data[f[len(root):]] = {'statements': sorted(statements), 'missing': sorted(missing)}
+        out['coverage'] = data
+    except Exception as exc:  # coverage is diagnostics only
+        out['coverage_error'] = repr(exc)
 
 
 def run_replay(prop_id, path):
